@@ -8,15 +8,16 @@ from bufmodel import BUF_MODELS, buf_state, buf_len
 from absint import Event, Ok, Some, lin_add
 
 LEVEL_TEXT = (
-    "Static clause check: R1 the three size tests (parse_header's reserve guard, parse_request, decode) are the same "
-    "predicate 'too large <=> body_length > item_size_limit', evaluated over order(body_length, limit) in {<,=,>} (equal "
-    "and smaller are never rejected); R2 an oversized request of any opcode decodes to ItemTooLarge, whose handler arm "
-    "answers 'value too large' (status 3) and reaches no store method; R3 conservation of bytes in the oversized-item arm "
-    "of read_frame: (bytes dropped from the connection buffer) + (count handed to skip_bytes) is the affine expression "
-    "body_length on every path and the subtraction producing the skip count cannot underflow; the discard loop ends with "
-    "Ok only when its counter equals the requested count or on EOF; R4 the configured limit reaches the codec "
-    "(MemcrsArgs.item_size_limit -> server config -> client config -> connection -> codec). Not decided: what the peer "
-    "sends while the body is being discarded."
+    'Static clause check: R1 the size tests (header reserve guard, decode, and the dispatcher where it exists) are '
+    "the same predicate 'too large <=> body_length > item_size_limit', evaluated over order(body_length, limit) in "
+    '{<,=,>} (equal and smaller are never rejected); R2 an oversized request of any opcode decodes to ItemTooLarge, '
+    "whose handler arm answers 'value too large' (status 3) and reaches no store method; R3 conservation of bytes in "
+    'the oversized-item arm of read_frame: (bytes dropped from the connection buffer) + (count handed to the discard '
+    'loop) is the affine expression body_length on every path and the subtraction producing the skip count cannot '
+    'underflow; the discard loop ends with Ok only when its counter equals the requested count or on EOF, and every '
+    'read in it is capped by the bytes still to skip; R4 the configured limit reaches the codec, composed end to end '
+    'through the public constructors: CLI item_size_limit -> MemcacheServerConfig -> MemcacheTcpServer::new -> run -> '
+    "Client::new -> the connection's codec. Not decided: what the peer sends while the body is being discarded."
 )
 ASSUMPTIONS = [
     "bytes semantic table (advance/clear/split_off/len), std::cmp::min(a,b) <= a and <= b",
